@@ -26,6 +26,7 @@ type RCase struct {
 	NextText  string `json:"next_text,omitempty"`
 	Choices   []int  `json:"choices"`
 	Ops       string `json:"ops,omitempty"`
+	Oracle    string `json:"oracle,omitempty"` // property whose oracle judged the reset parser's run (empty: C13 differential)
 }
 
 // drivePrior gives the parser a history. mode 0: default loop over the whole
@@ -97,6 +98,10 @@ func fmtRec(e []RecEv, i int) string {
 type resetRunner struct {
 	hReset, hFresh *Hist
 	none           Oracle
+	// orc, if set, is the property oracle applied to the reset parser's run
+	// (C12 uses the reset-prior driver with its own oracle); the comparison
+	// with a fresh parser is C13's and is skipped then.
+	orc *Oracle
 	bufSize        int
 	bFor           string
 }
@@ -148,9 +153,20 @@ func (r *resetRunner) run(pc PCfg, prior []byte, mode, resetKind int, next []byt
 		}
 		return p
 	}
+	h.CaseFn = nil
+	if r.orc != nil {
+		h.CaseFn = func() any {
+			return RCase{Kind: pc.Kind, Cfg: pc.JSON, Prior: hex.EncodeToString(prior), PriorText: printable(prior), PriorMode: mode, ResetKind: resetKind,
+				Next: hex.EncodeToString(next), NextText: printable(next), Choices: h.C.Choices(), Ops: h.OpsString(), Oracle: h.Prop}
+		}
+	}
 	var fc engine.Chooser
 	engine.Explore(bound, func(c *engine.Chooser) {
 		h.C = c
+		if r.orc != nil {
+			RunParserHist(h, r.orc)
+			return
+		}
 		RunParserHist(h, &r.none)
 		// the fresh parser replays exactly the same choices
 		fc.Reset(c.Cs)
@@ -214,6 +230,8 @@ func resetLayers(tier string) []resetLayer {
 			{Name: "hash-long", Kinds: HashKinds, BufSizes: []int{16, 100}, Level: 0, Prior: Union(FewLong(40), FewLong(130)), Next: StructuredSet(33, 70), Modes: []int{0}, Bound: 0, Filter: tinyTables},
 			{Name: "sa", Kinds: sa, BufSizes: []int{3, 8}, Level: 0, Prior: Binary(4), Next: BinaryRange(1, 5), Modes: []int{0, 2}, Bound: 0},
 			{Name: "sa-long", Kinds: sa, BufSizes: []int{100}, Level: 0, Prior: FewLong(130), Next: FewLong(90), Modes: []int{0}, Bound: 0, Filter: wideOnly},
+			{Name: "sa-multifill", Kinds: sa, Level: 1, Prior: Union(FewLong(13), FewLong(20)), Next: BinaryRange(1, 8), Modes: []int{0, 3}, Bound: 1, Geos: saMultifill.Geos},
+			{Name: "sa-wide", Kinds: sa, Level: 1, Prior: BinaryRange(5, 8), Next: BinaryRange(4, 8), Modes: []int{0}, ResetKinds: []int{0, 2}, Bound: 0, Geos: saWide.Geos},
 		}
 	}
 	return []resetLayer{
@@ -222,8 +240,21 @@ func resetLayers(tier string) []resetLayer {
 		{Name: "hash-b1", Kinds: HashKinds, BufSizes: []int{3}, Level: 2, Prior: Binary(3), Next: BinaryRange(1, 4), Modes: []int{0}, Bound: 1},
 		{Name: "sa", Kinds: sa, BufSizes: []int{3, 8}, Level: 0, Prior: Binary(3), Next: BinaryRange(1, 4), Modes: []int{0}, Bound: 0, Filter: wideOrTiny},
 		{Name: "sa-long", Kinds: sa, BufSizes: []int{100}, Level: 0, Prior: FewLong(130), Next: FewLong(90), Modes: []int{0}, Bound: 0, Filter: wideOnly},
+		saMultifill, saWide,
 	}
 }
+
+// saMultifill: the prior history needs two buffer fills (so the last sort /
+// edge computation before Reset happened at a parse position > 0), the next
+// input is parsed in small blocks.
+var saMultifill = resetLayer{Name: "sa-multifill", Kinds: []string{"GSAP", "OSAP"}, Level: 0, Prior: FewLong(13), Next: BinaryRange(1, 6), Modes: []int{0}, ResetKinds: []int{0, 2}, Bound: 0,
+	Geos: []lz.BufConfig{{BufferSize: 8, WindowSize: 8, BlockSize: 2}, {BufferSize: 8, WindowSize: 8, BlockSize: 3}, {BufferSize: 6, ShrinkSize: 3, WindowSize: 16, BlockSize: 2}}}
+
+// saWide: prior and next fit into one fill and one or two blocks; what the
+// previous sort left behind (suffix array, inverse, rank set) is as large as
+// the next input.
+var saWide = resetLayer{Name: "sa-wide", Kinds: []string{"GSAP", "OSAP"}, Level: 0, Prior: BinaryRange(6, 6), Next: BinaryRange(5, 6), Modes: []int{0}, ResetKinds: []int{0, 2}, Bound: 0,
+	Geos: []lz.BufConfig{{BufferSize: 16, WindowSize: 16, BlockSize: 16}, {BufferSize: 16, WindowSize: 16, BlockSize: 4}}}
 
 // wideGeos are geometries in which a whole short input fits into one buffer
 // fill and one or a few blocks: stale search-structure entries need that to
@@ -265,9 +296,16 @@ func wideOrTiny(pc PCfg) bool {
 }
 
 func resetShards(tier string) []engine.Shard {
+	return resetShardsFor("C13", resetLayers(tier), nil)
+}
+
+// resetShardsFor builds the shards of the reset-prior driver. With mkOracle
+// == nil it is the differential check of C13 (reset parser vs. new parser);
+// otherwise the property oracle is applied to the run of the reset parser.
+func resetShardsFor(prop string, layers []resetLayer, mkOracle func() *Oracle) []engine.Shard {
 	var shards []engine.Shard
-	menu := Menu{WriteChunks: true, ReadFrom: true, NTL: true, ParseNil: true, StopEarly: true, ShrinkDev: true, Reset: false}
-	for _, l := range resetLayers(tier) {
+	menu := Menu{WriteChunks: true, ReadFrom: true, NTL: true, ParseNil: prop != "C12", StopEarly: true, ShrinkDev: true, Reset: false}
+	for _, l := range layers {
 		l := l
 		geo := Geometry(l.BufSizes)
 		if l.Geos != nil {
@@ -288,9 +326,13 @@ func resetShards(tier string) []engine.Shard {
 			for lo := 0; lo < len(cfgs); lo += per {
 				part := cfgs[lo:min(lo+per, len(cfgs))]
 				shards = append(shards, engine.Shard{
-					Name: fmt.Sprintf("C13/%s/%s/cfg%d", l.Name, kind, lo),
+					Name: fmt.Sprintf("%s/%s/%s/cfg%d", prop, l.Name, kind, lo),
 					Run: func(st *engine.Stats, col *engine.Collector) {
 						r := newResetRunner(st, col, menu)
+						if mkOracle != nil {
+							r.orc = mkOracle()
+							r.hReset.Prop = prop
+						}
 						for _, pc := range part {
 							r.hReset.States = map[uint64]struct{}{}
 							r.hReset.Outcomes = map[uint64]struct{}{}
@@ -324,6 +366,10 @@ func resetShards(tier string) []engine.Shard {
 }
 
 func replayReset(raw json.RawMessage, col *engine.Collector) error {
+	return replayResetFor("C13", nil, raw, col)
+}
+
+func replayResetFor(prop string, mkOracle func() *Oracle, raw json.RawMessage, col *engine.Collector) error {
 	var rc RCase
 	if err := json.Unmarshal(raw, &rc); err != nil {
 		return err
@@ -331,8 +377,12 @@ func replayReset(raw json.RawMessage, col *engine.Collector) error {
 	prior, _ := hex.DecodeString(rc.Prior)
 	next, _ := hex.DecodeString(rc.Next)
 	var st engine.Stats
-	menu := Menu{WriteChunks: true, ReadFrom: true, NTL: true, ParseNil: true, StopEarly: true, ShrinkDev: true, Reset: false}
+	menu := Menu{WriteChunks: true, ReadFrom: true, NTL: true, ParseNil: prop != "C12", StopEarly: true, ShrinkDev: true, Reset: false}
 	r := newResetRunner(&st, col, menu)
+	if mkOracle != nil {
+		r.orc = mkOracle()
+		r.hReset.Prop = prop
+	}
 	r.hReset.States = map[uint64]struct{}{}
 	r.hReset.Outcomes = map[uint64]struct{}{}
 	pc := PCfg{Kind: rc.Kind, JSON: rc.Cfg}
